@@ -12,6 +12,8 @@ import (
 	"time"
 
 	"golang.org/x/tools/go/ssa"
+
+	"govc/smt"
 )
 
 type OblResult struct {
@@ -76,7 +78,17 @@ func verifyFunc(p *Program, key string) (fr *FuncResult, ex *Exec) {
 func NewExec(p *Program, fn *ssa.Function, fc *FuncContract, pc *PkgContracts) *Exec {
 	w := NewWorld(p.ModPath)
 	return &Exec{W: w, Prog: p, Fn: fn, FC: fc, PC: pc, keys: map[string]*HeapKey{}, Abstr: map[string]bool{}, Unsound: map[string]bool{},
-		siteCtr: map[string]int{}, bitsDecl: map[string]int{}}
+		siteCtr: map[string]int{}, bitsDecl: bitsOf2(pc), recDefs: map[string]*recDef{}, recMemo: map[string]string{}, recReads: map[string]map[string]*smt.Term{}}
+}
+
+func bitsOf2(pc *PkgContracts) map[string]int {
+	out := map[string]int{}
+	if pc != nil {
+		for k, v := range pc.Bits {
+			out[k] = v
+		}
+	}
+	return out
 }
 
 func solveAll(results []*OblResult, timeoutS int, workers int, order []int) {
@@ -90,7 +102,11 @@ func solveAll(results []*OblResult, timeoutS int, workers int, order []int) {
 		go func() {
 			defer wg.Done()
 			for r := range ch {
-				r.Res = Solve(r.Script, timeoutS, order)
+				if r.Obl.ExpectSat {
+					r.Res = Solve(r.Script, 3, []int{0, 1})
+				} else {
+					r.Res = Solve(r.Script, timeoutS, order)
+				}
 				switch {
 				case r.Obl.ExpectSat && r.Res.Status == "sat":
 					r.Status = "cover-ok"
@@ -137,7 +153,7 @@ func cmdVerify(args []string) {
 	timeout := fs.Int("timeout", 10, "per-obligation timeout (s)")
 	dump := fs.String("dump", "", "regexp of obligation names whose SMT script is printed")
 	only := fs.String("only", "", "regexp of obligation names to solve")
-	workers := fs.Int("j", 14, "parallel solver processes")
+	workers := fs.Int("j", 8, "parallel solver processes")
 	showAssume := fs.Bool("abstr", false, "print abstraction notes")
 	fs.Parse(args)
 	t0 := time.Now()
